@@ -111,6 +111,9 @@ BFS_SCOPES = {
     "datatype2": ("datatype", "triple", (8, 1, 2), 1, (0, 1, 2, 3, 4, 5)),
     "repeat": ("repeat", "quad", (8, 2, 0), 2, (0, 1, 2, 3, 5)),
     "quoted": ("quoted", "triple", (8, 1, 1), 1, (0, 1, 2, 3)),
+    "dtpressure": ("dtpressure", "triple", (8, 1, 3), 2, (0, 1, 2, 3, 4, 5)),
+    "odd": ("odd", "quad", (8, 1, 1), 3, (0, 1, 2, 3, 4, 5)),
+    "names": ("name", "triple", (8, 1, 0), 1, (0, 1, 2, 3)),
 }
 
 
